@@ -20,7 +20,7 @@ E4_ASSUME = [
 
 PROPS_ADD = {
     "C22": {
-        "engine": "clustersim", "level": "exploration", "budget": {"quick": 25, "thorough": 600},
+        "engine": "clustersim", "level": "exploration", "budget": {"quick": 20, "thorough": 600},
         "title": "Replicas apply identical command sequences and answer each proposal once",
         "technique": "deterministic simulation of a 3-store raft cluster: seeded message delays/drops/duplicates/partitions, leader transfers, campaigns, store crash+restart, tick skew; apply observer on every store",
         "rule": "case = seeded timeline of tagged proposals and fault steps; distinct = distinct event-trace hash; non-trivial = at least one injected fault fired and at least two proposals were acknowledged",
@@ -29,7 +29,7 @@ PROPS_ADD = {
         "design_ref": "7/C22", "assumptions": E4_ASSUME,
     },
     "C23": {
-        "engine": "clustersim", "level": "exploration", "budget": {"quick": 25, "thorough": 600},
+        "engine": "clustersim", "level": "exploration", "budget": {"quick": 20, "thorough": 600},
         "title": "Only the current leader serves reads and proposals, and reads are linearizable",
         "technique": "deterministic simulation of a 3-store raft cluster with writers (prewrite+commit of uniquely valued puts at increasing timestamps) and readers (ReadCommand at arbitrary stores incl. partitioned old leaders); necessary-condition oracle at every read, porcupine register check per key after the run",
         "rule": "case = seeded timeline of writes, reads (with target store) and fault steps; distinct = distinct event-trace hash; non-trivial = at least one injected fault fired, one write was acknowledged and one read returned a value or not-found",
@@ -38,7 +38,7 @@ PROPS_ADD = {
         "design_ref": "7/C23", "assumptions": E4_ASSUME,
     },
     "C28": {
-        "engine": "clustersim", "level": "exploration", "budget": {"quick": 25, "thorough": 600},
+        "engine": "clustersim", "level": "exploration", "budget": {"quick": 20, "thorough": 600},
         "title": "Client two-phase commit is atomic across regions",
         "technique": "deterministic simulation: the real raftstore/client (Mutate/TwoPhaseCommit, CheckTxnStatus, ResolveLocks, Get, Scan) over in-process TinyKv shims on 1-3 real stores with 2-3 regions; an RPC fault (fail before delivery / deliver and lose the response) is injected at every (method, region, attempt) position of the prewrite/commit sequence of each generated mutation set; leader moves before and inside the protocol in the replicated variant",
         "rule": "case = mutation sets (1-3 regions, 1-2 keys per region) x every RPC fault position + no-fault run, executed as consecutive transactions; distinct = distinct event-trace hash; non-trivial = at least two transactions ran and at least one injected RPC fault fired",
